@@ -282,31 +282,38 @@ func genTmplExpr(r *rng, leaves []string) string {
 	}
 	k := 1 + r.intn(len(leaves)-1)
 	a, b := genTmplExpr(r, leaves[:k]), genTmplExpr(r, leaves[k:])
-	switch r.intn(14) {
+	// every form is integer-valued when its leaves are
+	switch r.intn(18) {
 	case 0, 1:
 		return a + " + " + b
-	case 2:
+	case 2, 3:
 		return a + " - " + b
-	case 3, 4:
+	case 4, 5:
 		return a + " * " + b
-	case 5:
-		return a + " % " + b
 	case 6:
-		return "add(" + a + ", " + b + ")"
+		return a + " % " + b
 	case 7:
-		return "if " + a + " < " + b + " { " + a + " } else { " + b + " }"
+		return "add(" + a + ", " + b + ")"
 	case 8:
-		return "[" + a + ", " + b + "]"
+		return "if " + a + " < " + b + " { 1 } else { 2 }"
 	case 9:
-		return "[10, 20, 30][" + a + " % 3] + " + b
+		return "len([" + a + ", " + b + "])"
 	case 10:
-		return "{" + a + ": " + b + "}"
+		return "[10, 20, 30][" + a + " % 3] + " + b
 	case 11:
-		return "func() { " + a + "; " + b + " }()"
+		return "{\"u\": " + a + ", \"v\": " + b + "}.v"
 	case 12:
-		return a + " == " + b
-	default:
+		return "func() { " + a + "; " + b + " }()"
+	case 13:
+		return "if " + a + " == " + b + " { 3 } else { 4 }"
+	case 14:
 		return a + " / " + b
+	case 15:
+		return "[" + a + ", " + b + "][1]"
+	case 16:
+		return a + " | " + b
+	default:
+		return a + " << (" + b + " % 4)"
 	}
 }
 
@@ -404,17 +411,34 @@ func genMacroArg(r *rng, defs []*mdef, depth int, fnKind bool) callText {
 	case 5:
 		t = fmt.Sprintf("a - %d", r.intn(4))
 	case 6:
-		t = "b || a" // loosest binding operator (type error at evaluation, on both sides)
+		switch r.intn(6) { // operators binding looser than anything in a template
+		case 0:
+			t = "b || a" // (type error at evaluation, on both sides)
+		case 1:
+			t = fmt.Sprintf("a < %d", r.intn(10))
+		case 2:
+			t = fmt.Sprintf("res = %d", r.intn(9))
+		case 3:
+			t = "a | 8"
+		case 4:
+			t = "b & 6"
+		default:
+			t = "1 << b"
+		}
 	case 7:
 		t = "tick()"
 	case 8:
 		t = "cnt++"
 	case 9:
-		t = "print(\"a\")"
+		if r.intn(3) == 0 {
+			t = "print(\"a\")"
+		} else {
+			t = "say(" + fmt.Sprint(r.intn(5)) + ")"
+		}
 	case 10:
 		t = fmt.Sprintf("-%d", 1+r.intn(5))
 	case 11:
-		t = fmt.Sprintf("a < %d", r.intn(10))
+		t = fmt.Sprintf("%d * a", 2+r.intn(3))
 	default: // nested macro call as argument
 		for try := 0; try < 4; try++ {
 			m := defs[r.intn(len(defs))]
@@ -504,7 +528,7 @@ func genMacroUse(r *rng, defs []*mdef, uniq *int) callText {
 	}
 }
 
-const macroPrelude = "a = 7\nb = 3\ncnt = 0\nres = 0\nfunc add(u, v) { u + v }\nfunc id(u) { u }\nfunc tick() { cnt = cnt + 1; println(\"t\", cnt); cnt }"
+const macroPrelude = "a = 7\nb = 3\ncnt = 0\nres = 0\nfunc add(u, v) { u + v }\nfunc id(u) { u }\nfunc tick() { cnt = cnt + 1; println(\"t\", cnt); cnt }\nfunc say(u) { print(\"s\", u); u }"
 
 func genMacroSession(r *rng) string {
 	nm := 1 + r.intn(3)
@@ -517,15 +541,15 @@ func genMacroSession(r *rng) string {
 	// input 1: prelude and definitions (sometimes with uses after them in the same input)
 	raw1 := []string{macroPrelude}
 	hand1 := []string{macroPrelude}
-	later := 0
+	var known, pending []*mdef
 	for i, d := range defs {
 		if i > 0 && r.intn(4) == 0 {
-			later++ // defined in a later input
+			pending = append(pending, d) // defined in a later input
 			continue
 		}
 		raw1 = append(raw1, d.raw())
+		known = append(known, d)
 	}
-	known := defs[:len(defs)-later]
 	if r.intn(3) == 0 {
 		u := genMacroUse(r, known, &uniq)
 		raw1 = append(raw1, u.raw)
@@ -535,9 +559,10 @@ func genMacroSession(r *rng) string {
 	hands = append(hands, strings.Join(hand1, "\n"))
 	for in := 1 + r.intn(3); in > 0; in-- {
 		var rl, hl []string
-		if len(known) < len(defs) {
-			rl = append(rl, defs[len(known)].raw())
-			known = defs[:len(known)+1]
+		if len(pending) > 0 {
+			rl = append(rl, pending[0].raw())
+			known = append(known, pending[0])
+			pending = pending[1:]
 		}
 		for u := 1 + r.intn(3); u > 0; u-- {
 			c := genMacroUse(r, known, &uniq)
